@@ -105,7 +105,10 @@ def loadtxt(
         with open(fname) as src:
             header = src.readline()
     else:
+        # peek at the first line only: without a numpoly header it is data
+        position = fname.tell()
         header = fname.readline()
+        fname.seek(position)
     if isinstance(header, bytes):
         header = header.decode("utf-8")
 
